@@ -780,4 +780,21 @@ theorem removeNode_multipeer_counterexample :
     IdsDistinct mpState ∧ Closed mpState ∧ ¬ RemoveHyp mpState ∧ failed (step (.removeNode "n1") mpState) ∧
       (step (.removeNode "n1") mpState).2 ≠ mpState ∧ (step (.removeNode "n1") mpState).2.nodes.length = 11 := by decide
 
+/-! ## what the model takes from the store primitives
+
+`updateProps` is ONE write of the whole keyword dictionary, for any values (a property value is opaque text to the model; a value
+that is not a string - the setters of details / site / controller_url / mirror_port / mirror_vlan / allocation_constraints have no
+type check - travels as a tagged text), and every lookup (`findNode`, `nodeExists`, the pre-check of `addLink`) sees the nodes of
+this model only, although the default store keeps every graph of the process in one structure (a copy of the topology kept in the
+process holds the same node ids).  Both facts are probed on both in-memory stores in every run (gen/rules.py); the generated
+histories contain non-string values at every keyword position and copies kept before removals, so a difference also shows
+call by call. -/
+
+theorem store_primitives_as_modelled : Gen.Rules.updateWhole = true ∧ Gen.Rules.lookupOwnGraph = true := by decide
+
+/-- bulk setter, whatever the values (tagged non-strings included) and wherever a rejected keyword sits: it raises exactly when
+some keyword is rejected or the element is gone, and then nothing was written -/
+theorem setProps_rejected_whole (nid : Nid) (props : List PropArg) (s : Topo) (h : failed (setProps nid props s)) :
+    (setProps nid props s).2 = s := (atomic_setProps nid props).h s h
+
 end FimVerif.C09
